@@ -103,23 +103,30 @@ func c08Case(env *SeqEnv, st fillStyle, filler mpb.BarFiller, w int, total, cur,
 		}
 		filled := c.refill + c.filler + c.tip
 		want := wantFilled(inner, total, cur)
-		tol := 0
-		if runewidth.StringWidth(st.filler) > 1 || runewidth.StringWidth(st.tip) > 1 {
-			tol = 1
+		// a multi-column filler may leave up to (width-1) cells unfilled; a multi-column tip may overhang the filled
+		// part by up to (width-1) cells (draw_test.go enshrines this) but is dropped when wider than the whole bar
+		under, over := 0, 0
+		if fw := runewidth.StringWidth(st.filler); fw > 1 {
+			under = fw - 1
 		}
-		if tw := runewidth.StringWidth(st.tip); tw > 2 {
-			tol = tw - 1 // a tip wider than the filled part overhangs it (draw_test.go enshrines this), never beyond the bar
+		if tw := runewidth.StringWidth(st.tip); tw > 1 {
+			over = tw - 1
+			under = 1
+			if tw > 2 {
+				under = 0
+			}
 		}
 		big53 := int64(1) << 53
 		if total > big53 || cur > big53 {
-			tol++ // beyond float64's integer range the nearest cell may differ by one at a .5 boundary
+			under++ // beyond float64's integer range the nearest cell may differ by one at a .5 boundary
+			over++
+		}
+		tol := under
+		if over > tol {
+			tol = over
 		}
 		nontrivial := want > 0 && want < inner
-		d := filled - want
-		if d < 0 {
-			d = -d
-		}
-		if d > tol {
+		if d := filled - want; d > over || -d > under {
 			return out, nontrivial, "proportional", fmt.Sprintf("%d of %d cells filled, round(inner*current/total) = %d: %q", filled, inner, want, out)
 		}
 		if c.refill > filled {
